@@ -7,6 +7,74 @@ TRAPS = ["TrapAcceptedDuringShutdown", "TrapHandlerOutlivesGrace", "TrapShutdown
          "TrapShutdownAfterOwnerClose", "TrapShutdownAfterOwnerCloseIdle"]
 
 
+def stalled(ctx, binary):
+    """Shutdown while the response is on its way to a client that has stopped reading (spec/ShutdownStall.tla): TLC checks the design
+    (Drained, HookOnce, and - with fairness for the server's own steps only - that Shutdown returns); the plans are replayed on the real
+    server over a transport whose writes block, and every run is validated by TLC against TraceShutdownStall.tla."""
+    import re
+    ctx.tlc("ShutdownStall", "ShutdownStall_mc.cfg", workers=2)
+    g = ctx.tlc("MCShutdownStall", "ShutdownStall_gen.cfg", workers=1, count=False)
+    plans = sorted(g.printed("CASE"), key=lambda p: json.dumps(p, sort_keys=True))
+    if len(plans) < 20:
+        raise vlib.Inconclusive("only %d stall plans generated" % len(plans))
+    ppath, tpath = os.path.join(ctx.work, "stall_plans.ndjson"), os.path.join(ctx.work, "stall_trace.ndjson")
+    vlib.write_ndjson(ppath, plans)
+    rc, out = ctx.run_driver(binary, test_run="^TestStall$", env={"VERIF_STALL_CASES": ppath, "VERIF_TRACE": tpath}, timeout=900)
+    if not os.path.exists(tpath):
+        raise vlib.Inconclusive("stall driver failed rc=%s\n%s" % (rc, out[-3000:]))
+    log = vlib.read_ndjson(tpath)
+    byplan = {}
+    for e in log:
+        byplan.setdefault(e["plan"], []).append(e)
+    keep, flagged = [], 0
+    for k in sorted(byplan):
+        evs = byplan[k]
+        plan = plans[k]
+        tag = "%s/%s/%s" % (plan["stall"], plan["shutdown"], plan["after"])
+        end = [e for e in evs if e["ev"] == "end"]
+        prob = [e for e in evs if e["ev"] == "problem"]
+        whats = []
+        if prob and not end:
+            whats.append(("run-does-not-end", prob[0]["what"]))
+        elif prob:
+            raise vlib.Inconclusive("stall driver: %s" % prob)
+        for e in end:
+            if e["sd"] != "returned":
+                whats.append(("shutdown-does-not-return", "Shutdown has not returned 10 s after the call (grace period 3 s)"))
+            if e["hooks"] != e["connects"]:
+                whats.append(("hooks-unpaired", "%d connect hook(s), %d terminate hook(s)" % (e["connects"], e["hooks"])))
+            if e["left"] > 0:
+                whats.append(("goroutines-left", "%d goroutine(s) of the server are left 10 s after Shutdown was called" % e["left"]))
+            if e["serve"] != "ErrShutdown":
+                whats.append(("serve-result", "Serve: %s" % e["serve"]))
+        for e in evs:
+            if e["ev"] == "shutdown-return" and e["after_ms"] > 3100:
+                whats.append(("returns-long-after-the-grace-period", "Shutdown returned %d ms after the call" % e["after_ms"]))
+        if whats:
+            flagged += 1
+            ctx.violation("stall:%s:%s" % (whats[0][0], tag), "client that stops reading, plan %s: %s; events: %s" % (tag, "; ".join(w[1] for w in whats), json.dumps(evs)[:1500]), {"plan": plan, "events": evs})
+            continue
+        keep += [{kk: v for kk, v in e.items() if kk in ("ev", "sd", "answered", "hooks")} for e in evs]
+    if rc != 0 and not flagged:
+        raise vlib.Inconclusive("stall driver failed rc=%s\n%s" % (rc, out[-3000:]))
+    if len(byplan) != len(plans) and not flagged:
+        raise vlib.Inconclusive("stall driver replayed %d of %d plans" % (len(byplan), len(plans)))
+    if keep:
+        vpath = os.path.join(ctx.work, "stall_validate.ndjson")
+        vlib.write_ndjson(vpath, keep)
+        t = ctx.tlc("TraceShutdownStall", "ShutdownStall_trace.cfg", workers=1, env={"TRACE_FILE": vpath}, must_pass=False, count=False, label="stall")
+        if t.ok:
+            ctx.traces_validated += len([e for e in keep if e["ev"] == "reset"])
+        else:
+            m = re.search(r"REJECTED_AT\D+(\d+)", t.out)
+            if not m:
+                raise vlib.Inconclusive("stall trace validation failed:\n" + t.out[-3000:])
+            pos = int(m.group(1))
+            start = max(k for k in range(pos) if keep[k]["ev"] == "reset")
+            raise vlib.Inconclusive("model drift: TLC rejects a stalled-client run without a property-level anomaly at event %s; run so far: %s" % (json.dumps(keep[pos - 1]), json.dumps(keep[start:pos])[:1500]))
+    return len(plans)
+
+
 def run(ctx):
     ctx.tlc("Server", "Server_sd1.cfg" if not ctx.quick else "Server_sd1q.cfg", coverage=not ctx.quick)
     ctx.tlc("Server", "Server_sdlive.cfg" if not ctx.quick else "Server_sdliveq.cfg")
@@ -36,6 +104,7 @@ def run(ctx):
     log, panics = sc.run_driver_with_restart(ctx, binary, {"VERIF_SCHEDULES": spath, "VERIF_NRANDOM": 400 if ctx.quick else 6000, "VERIF_SHUTDOWN": 1}, "c16")
     for p in panics:
         ctx.violation("panic:%s:%s" % (p["top"], p["msg"]), "the server process crashed in run %s: %s; last events: %s" % (p["run"], p["msg"], json.dumps(p["events"])[:1500]), p)
+    nstall = stalled(ctx, binary)
     ntls, tls_steps = sc.tls_front(ctx, binary)      # Shutdown behind a TLS listener (TlsAccept.tla histories end with Shutdown)
     nruns, accepted, drift = sc.validate(ctx, log, {"hooks", "shutdown", "responses"})
     if drift and not ctx.viol:
@@ -47,6 +116,7 @@ def run(ctx):
         "evaluations": nruns + len(panics),
         "distinct_nontrivial": nsd,
         "rule": "a run = one controlled execution of the real Server.Serve/Shutdown over in-memory connections inside a synctest bubble (virtual time: the 3 s grace timer fires when the controller lets it); non-trivial = runs in which Shutdown was called; %d runs start from TLC-generated schedules (%s); every run validated by TLC against TraceServer.tla and judged by the oracle (Serve result, handler after Shutdown returned, hook pairing, leaked goroutines)" % (len(scheds), ", ".join(TRAPS)),
+        "stalled_client_plans": nstall, "stalled_client_rule": "the plans of MCShutdownStall.tla (when the client stops reading x when Shutdown is called x what the client does then) on the real server over a transport whose writes block, each run validated by TLC against TraceShutdownStall.tla",
         "tls_histories": ntls, "tls_rule": "TlsAccept.tla histories end with Shutdown while clients are connected, mid-handshake or past it: Shutdown returns (connections past the handshake are cut after the grace period), Serve returns, hooks pair, and a client accepted before the call that completes its handshake after Shutdown returned gets no handler",
         "trap_schedules": len(scheds), "events_validated": len(log),
         "samples": ([scheds[0]] if scheds else []) + runs[len(runs) // 3][:25],
